@@ -4,7 +4,8 @@
    `run ops` is the state of the model of hdl21/instance.py after ANY finite list of
    call / assignment / connect / replace / disconnect / reference-fetching operations, with any
    instances, port names and arguments (connectables of every kind, dicts, non-connectables). *)
-Require Import Hdl21.Base.PyInt Hdl21.Model.C04ConnOps Hdl21.Spec.C04LastWrite Hdl21.Proofs.C04Proofs.
+Require Import Hdl21.Base.PyInt Hdl21.Model.C04ConnOps Hdl21.Spec.C04LastWrite Hdl21.Proofs.C04Proofs
+               Hdl21.Model.C04Groups Hdl21.Proofs.C04GroupProofs.
 
 (* 1. the books stay in step, after every history: a port is in a connectable's back-reference set
       exactly when that connectable is the port's current connection; `conns` is a dict (no duplicate
@@ -76,6 +77,68 @@ Theorem C04_no_internal_error ops o : step_err (run ops) o <> Some EInternal.
 Proof. exact (step_no_internal _ o (inv_run ops)). Qed.
 Print Assumptions C04_no_internal_error.
 
+(* ------------------------------------------------------------------------------------------------
+   What the elaborator's port-reference pass can reach from such a state (Model/C04Groups.v is
+   portrefs.py:follow, depth first, on the books `conns` / `_connected_ports` / handed-out references). *)
+
+(* 6. a group holds only what the FINAL mapping joins to its seed: every reference in it is reached from
+      the seed through final connections ("q is connected to the reference of r" in either direction),
+      every other member is the final connection of such a port.  Nothing that was connected earlier and
+      replaced or disconnected since can be a member: it is not shorted to, and it merges no nets. *)
+Theorem C04_groups_follow_final_mapping ops inmod fuel q g x :
+  follow (run ops) inmod fuel q [] = Some g -> In x g ->
+  (exists r, x = GRef r /\ reach (run ops) q r) \/
+  (exists r c, x = GConn c /\ reach (run ops) q r /\ final r ops = Some c).
+Proof.
+  intros H Hx. destruct (follow_sound (run ops) inmod (inv_run ops) fuel q [] g H x Hx) as [[]|[A|[r [c [E [R L]]]]]].
+  - left; exact A.
+  - right. exists r, c. rewrite <- C04_final_mapping_only. auto.
+Qed.
+Print Assumptions C04_groups_follow_final_mapping.
+
+Theorem C04_no_stale_member ops inmod fuel q g r :
+  follow (run ops) inmod fuel q [] = Some g -> ~ reach (run ops) q r -> ~ In (GRef r) g.
+Proof.
+  intros H N Hx. destruct (C04_groups_follow_final_mapping ops inmod fuel q g _ H Hx) as [[r' [E R]]|[r' [c [E _]]]].
+  - inversion E; subst. exact (N R).
+  - discriminate.
+Qed.
+Print Assumptions C04_no_stale_member.
+
+(* `reach` itself is a function of the final mapping only *)
+Theorem C04_adj_final ops a b :
+  adj (run ops) a b <-> final a ops = Some (CRef (fst b) (snd b)) \/ final b ops = Some (CRef (fst a) (snd a)).
+Proof. unfold adj. rewrite !C04_final_mapping_only. reflexivity. Qed.
+Print Assumptions C04_adj_final.
+
+(* 7. a reference handed out earlier that nobody uses any more, on a port that ends up connected to an
+      object: its group is exactly {the port, that object}, for any fuel >= 1 and whatever else happened;
+      resolving it re-connects the port to the object it is connected to, which changes neither `conns`
+      nor any back-reference set.  (For a no-connect the port is a seed anyway: C04_noconn_seed.) *)
+Theorem C04_stale_ref_harmless ops inmod fuel q c :
+  final q ops = Some c -> (forall i p, c <> CRef i p) ->
+  (forall q', final q' ops <> Some (CRef (fst q) (snd q))) ->
+  follow (run ops) inmod (S fuel) q [] = Some [GRef q; GConn c] /\
+  exists s', connect (run ops) q (AConn c) = COk s' /\ Inv s' /\
+             st_conns s' = st_conns (run ops) /\ st_handed s' = st_handed (run ops) /\
+             forall c0 x, In x (back_of c0 (st_back s')) <-> In x (back_of c0 (st_back (run ops))).
+Proof.
+  intros F NR NU. rewrite <- C04_final_mapping_only in F. split.
+  - apply stale_group; [apply inv_run | exact F | exact NR |].
+    intros q'. rewrite C04_final_mapping_only. apply NU.
+  - apply stale_resolve; [apply inv_run | exact F].
+Qed.
+Print Assumptions C04_stale_ref_harmless.
+
+Theorem C04_noconn_seed ops q id : final q ops = Some (CObj KNoConn id) -> In q (seeds (run ops)).
+Proof.
+  intros F. rewrite <- C04_final_mapping_only in F. apply seeds_spec. right. exists (CObj KNoConn id).
+  split; [|reflexivity]. clear -F. induction (st_conns (run ops)) as [|[k v] t IH]; simpl in *; [discriminate|].
+  destruct (pid_eqb q k) eqn:E; [apply pid_eqb_eq in E; inversion F; subst; left; reflexivity | right; auto].
+Qed.
+Print Assumptions C04_noconn_seed.
+
+
 (* ---- non-vacuity *)
 Definition s0 := CObj KSig 0.
 Definition nc := CObj KNoConn 30.
@@ -98,3 +161,14 @@ Example C04_ex_last_connect :
   forallb (fun o => negb (touches (0, 0) o)) [Connect 0 1 (AConn s0); Disconnect 1 0; GetRef 0 0] = true /\
   norm (ADict 3) = Some (CObj KAnon 3).
 Proof. split; reflexivity. Qed.
+
+(* non-vacuity: i1.a was tied to i0.a, then to s0; i0.a ends on s0 as well; i2.a refers to i1.a.
+   The group of the (stale) reference i0.a is {i0.a, s0}: i1.a and i2.a are not pulled in. *)
+Example C04_ex_groups :
+  let ops := [GetRef 0 0; SetAttr 1 0 (AConn (CRef 0 0)); SetAttr 1 0 (AConn s0); SetAttr 0 0 (AConn s0);
+              GetRef 1 0; SetAttr 2 0 (AConn (CRef 1 0))] in
+  follow (run ops) (fun _ => true) 5 (0, 0) [] = Some [GRef (0, 0); GConn s0] /\
+  follow (run ops) (fun _ => true) 5 (1, 0) [] = Some [GRef (1, 0); GConn s0; GRef (2, 0)] /\
+  seeds (run ops) = [(0, 0); (1, 0)] /\
+  final (0, 0) ops = Some s0 /\ forallb (fun q' => negb (conn_opt_eqb (final q' ops) (CRef 0 0))) [(0,0); (1,0); (2,0)] = true.
+Proof. vm_compute. repeat split. Qed.
